@@ -18,6 +18,7 @@ from fractions import Fraction as Fraction_
 FLOAT_EXPRS = [("10 ** -3", [1, 1000]), ("3 ** -1", [1, 3]), ("2 ** -2", [1, 4]), ("1 / 10 ** 3", [1, 1000]), ("1e-3", [1, 1000]), ("(-2) ** 3", [-8, 1]),
                ("2.5e1", [25, 1]), ("0x10 / 0b100", [4, 1]), ("-(1 / 8)", [-1, 8]), ("(10 ** -3) * (10 ** 3)", [1, 1]), ("1.5 * (2 ** -1)", [3, 4]),
                ("(-3) ** -3", [-1, 27]), ("7 ** -2", [1, 49]), ("(1 / 3) ** 2", [1, 9]), ("(2 / 3) ** -2", [9, 4]), ("10 ** -1 + 10 ** -2", [11, 100]),
+               ("2 ** -52", [1, 2**52]), ("5 * 2 ** -74", [5, 2**74]), ("1 / 2 ** 90", [1, 2**90]), ("3 * 2 ** -60 + 1", [3 + 2**60, 2**60]), ("(2 ** -30) / 5 ** 9", [1, 2**30 * 5**9]),
                ("1_0.0_0", [10, 1]), (".5", [1, 2]), ("5.", [5, 1]), ("1E+2", [100, 1]), ("12e-1", [6, 5])]
 INT_EXPRS = [("2 ** 3", [8, 1]), ("10 ** 2 - 1", [99, 1]), ("(2 ** 4) / 2", [8, 1]), ("0x0F & 0b0110", [6, 1]), ("(1 + 2) * 3", [9, 1]), ("0o17 | 0x10", [31, 1]),
              ("6 ^ 3", [5, 1]), ("(2 ** -1) * 4", [2, 1]), ("10 % 4", [2, 1]), ("-(-7)", [7, 1]), ("+3", [3, 1]), ("(10 ** -2) * 300", [3, 1]),
@@ -48,7 +49,7 @@ class WorkspaceGen:
         self.o = dict(
             roots=(1, 3), defs=(2, 9), max_depth=3, p_service=0.15, p_union=0.25, p_delim=0.4, p_family=0.3,
             p_ref=0.45, p_const=0.25, p_doc=0.25, p_pad=0.15, p_dep=0.1, p_port=0.15, p_uavcan=0.1,
-            p_cross_root=0.5, max_fields=5, max_cap=4, big_caps=False, p_split_root=0.0, p_rel=0.5, p_derive=0.0,
+            p_cross_root=0.5, max_fields=5, max_cap=4, big_caps=False, p_split_root=0.0, p_rel=0.5, p_derive=0.0, p_other_root_ns=0.0,
         )
         self.o.update(o)
         self.roots: list[dict] = []
@@ -75,7 +76,11 @@ class WorkspaceGen:
             for _ in range(rng.randint(0, 3)):
                 base = rng.choice(paths)
                 if len(base) < o["max_depth"]:
-                    p = base + [rng.choice(NS_NAMES)]
+                    comp = rng.choice(NS_NAMES)
+                    if rng.random() < o.get("p_other_root_ns", 0.0):
+                        # a nested namespace that carries the name of ANOTHER root namespace of the workspace (or of its own root)
+                        comp = rng.choice(names)
+                    p = base + [comp]
                     if not any(q[: len(p)] == p or [c.lower() for c in q[: len(p)]] == [c.lower() for c in p] for q in paths):
                         paths.append(p)
             self.ns_paths.append(paths)
